@@ -198,7 +198,7 @@ COMMON_ASSUME = ["Kani/CBMC/CaDiCaL verdicts", "the KFS model (harness/kfs.rs): 
 RELY = "rely/guarantee: between any two calls of the operation the shared directories move to any state other participants' protocol steps can produce"
 
 prop("C01", ["stack_gou_glue", "proto_glue", "plain_get_env", "raw_insert_or_update_basic", "raw_insert_or_touch_basic", "raw_ops_sanity_twin"],
-     ["plain_set_env", "plain_put_env", "sharded_get_01", "sharded_set_absent_env", "stack_get_w1r1_nock", "stack_set_temp_w1r1", "plain_set_seq", "plain_put_seq"],
+     ["sharded_get_01", "stack_get_w1r1_nock", "stack_set_temp_w1r1", "plain_set_seq", "plain_put_seq"],
      outside=["byte-granular reads (values are abstracted to content ids; 'complete' is set only by the last write)", "NFS close-to-open semantics", "peers that violate the protocol"], assumptions=COMMON_ASSUME + [RELY])
 prop("C02", ["c02_cleanup_temp_debris", "proto_glue", "raw_insert_or_update_basic", "raw_insert_or_touch_basic", "c02_cleanup_temp_by_age", "c02_cleanup_temp_missing_dir", "raw_apply_update_evict_a_moveback_b", "raw_ops_sanity_twin"],
      ["plain_set_seq", "plain_put_seq", "plain_set_fault", "sharded_set_absent", "sharded_put_in_secondary", "stackc_set_w1r1_cp", "stackc_set_temp_w1r1_cp", "stack_set_temp_w1r1"],
@@ -208,21 +208,21 @@ prop("C03", ["stack_gou_glue", "stack_ops_glue", "stack_finalize_glue", "raw_ins
      ["stackc_set_temp_w1r1_fault", "stackc_set_temp_w1r1", "stackc_put_temp_w1r1", "stackc_put_temp_w1r1_fault", "stackc_set_w1r1", "stackc_set_w1r1_fault", "stackc_put_w1r1", "stack_set_temp_w1r1", "stack_set_temp_w1r1_fault", "stack_set_w1r1", "stack_put_temp_w2r0"],
      outside=["whether the kernel's fsync is durable", "value sizes (content ids)"], assumptions=COMMON_ASSUME)
 prop("C04", ["stack_gou_glue", "proto_glue", "plain_get_env", "plain_touch_env", "raw_insert_or_touch_basic", "raw_touch_basic", "raw_ops_sanity_twin"],
-     ["plain_put_env", "plain_set_env", "plain_put_seq", "stackc_put_w1r1", "stack_put_w1r1"],
+     ["plain_put_seq", "stackc_put_w1r1", "stack_put_w1r1"],
      outside=["linearizability is decided as a forward simulation per operation (linearization point = the publishing / opening call), not by enumerating histories"],
      assumptions=COMMON_ASSUME + [RELY])
 prop("C05", ["c05_cleanup_temp_vanish", "proto_glue", "plain_get_env", "plain_touch_env", "raw_apply_update_evict_a_moveback_b", "raw_collect_a_temp", "raw_ops_sanity_twin"],
-     ["plain_write_missing_dir_env", "plain_set_env", "plain_put_env", "sharded_set_absent_env", "raw_collect_ab_sub", "sharded_set_in_secondary"],
+     ["plain_write_missing_dir_env", "raw_collect_ab_sub", "sharded_set_in_secondary"],
      outside=["adversarial deletion of young temp files (excluded by the property)"], assumptions=COMMON_ASSUME + [RELY])
 prop("C06", ["proto_glue", "plain_get_env", "plain_touch_env", "plain_ops_sanity_twin"],
-     ["plain_set_env", "plain_put_env", "sharded_set_absent_env"],
+     [],
      outside=["blocking inside the kernel", "step bounds are asserted as call-count constants under every environment answer, with unwinding assertions on"],
      assumptions=COMMON_ASSUME + [RELY])
 prop("C07", ["c07_prune_glue", "c07_apply_glue", "raw_collect_a_temp", "raw_collect_a_app", "raw_collect_empty_temp", "raw_apply_update_evict_a_moveback_b", "raw_ops_sanity_twin"],
      ["raw_collect_ab_sub", "raw_prune_pieces_dotfile_and_a", "c08_n2", "c08_n3_evicted"],
      outside=["listings of more than 3 entries; plans of more than 2 entries", "the composition prune = apply_update . planner . listing is decided on the MIR of prune ", "with the three callees uninterpreted (engine M); each callee by its own harnesses; the planner itself is C08"],
      assumptions=COMMON_ASSUME)
-prop("C08", ["c08_planner", "c08_n0", "c08_n1", "c08_n2", "c08_n2_fullrank", "c08_sanity_twin"], ["c08_n3_evicted", "c08_spec_planner_n2", "c08_spec_planner_n3", "c08_n4_evicted"],
+prop("C08", ["c08_planner", "c08_n0", "c08_n1", "c08_n2", "c08_n2_fullrank", "c08_sanity_twin"], ["c08_n3_evicted", "c08_spec_planner_n2", "c08_spec_planner_n3"],
      outside=["n > 2 for the contents of to_move_back; n > 4 for to_evict (CBMC runs out of memory on Vec::drain's memmove with a symbolic length; measured)", "rank domains other than {0..3} / u8; the planner only uses ranks through Ord", "tie order is left free by the oracle (the statement says 'under some ordering of equally ranked entries')"],
      assumptions=["Kani/CBMC model of alloc::vec and core::slice::sort is faithful", "CaDiCaL verdicts"] + VEC_STUBS)
 prop("C09", ["proto_glue", "plain_get_seq", "plain_touch_seq", "raw_insert_or_update_basic", "raw_insert_or_touch_basic", "raw_touch_basic", "raw_ops_sanity_twin"],
@@ -240,13 +240,13 @@ prop("C12", ["proto_glue", "c12_mapping", "c12_constants", "c12_new_clamps", "sh
      outside=["directory names for shard indices >= 2^20", "probe order is checked with the two candidate ids fixed to (0,1) and (1,0)"],
      assumptions=COMMON_ASSUME + ["z3 and cvc5 agree (both consulted on every obligation)"])
 prop("C13", ["readonly_glue", "stack_gou_glue", "stack_ops_glue", "stack_get_w1r1_nock", "stack_touch_w1r2", "stack_set_w0r1", "stack_ops_sanity_twin"],
-     ["stackc_set_w1r1", "stackc_touch_w1r2", "stackc_get_w1r2_bytes", "stackc_put_w1r1", "stackc_set_temp_w1r1", "stackc_put_temp_w1r1", "stack_set_w1r1", "stack_put_w1r1", "stack_set_temp_w1r1", "stack_put_temp_w2r0", "stack_put_temp_w0r1", "stack_get_w1r2_bytes", "stack_get_w0r2_bytes", "stack_get_w1r0_nock", "stack_get_w0r1_nock", "readonly_builder_equiv"],
+     ["stackc_set_w1r1", "stackc_touch_w1r2", "stackc_get_w1r2_bytes", "stackc_put_w1r1", "stackc_set_temp_w1r1", "stackc_put_temp_w1r1", "stack_set_w1r1", "stack_put_w1r1", "stack_set_temp_w1r1", "stack_put_temp_w2r0", "stack_put_temp_w0r1", "stack_get_w0r2_bytes", "stack_get_w1r0_nock", "stack_get_w0r1_nock", "readonly_builder_equiv"],
      outside=["stack shapes other than those listed (writer in {none, plain, sharded} x up to two plain readers)"], assumptions=COMMON_ASSUME)
 prop("C14", ["readonly_glue", "stack_gou_glue", "stack_ops_glue", "stack_get_w1r1_nock", "stack_ops_sanity_twin"],
-     ["stack_get_w1r2_bytes", "stackc_get_w1r2_bytes", "stack_get_w0r2_bytes", "readonly_builder_equiv"],
+     ["stackc_get_w1r2_bytes", "stack_get_w0r2_bytes", "readonly_builder_equiv"],
      outside=["checkers other than none / byte equality (the panicking checker is the same comparison followed by expect())"], assumptions=COMMON_ASSUME)
 prop("C15", ["proto_glue", "stack_get_w1r0_nock", "stack_touch_w1r2", "plain_get_seq", "stack_ops_sanity_twin"],
-     ["stack_get_w1r1_nock", "stack_get_w1r2_bytes", "stack_get_w0r2_bytes", "stack_set_w1r1", "sharded_get_01", "plain_invalid_name_dot"],
+     ["stack_get_w1r1_nock", "stack_get_w0r2_bytes", "stack_set_w1r1", "sharded_get_01", "plain_invalid_name_dot"],
      outside=["read-only sharded levels"], assumptions=COMMON_ASSUME)
 prop("C16", ["proto_glue", "c16_validator", "c16_confinement", "plain_invalid_name_empty", "plain_invalid_name_dot", "plain_invalid_name_slash", "plain_invalid_name_backslash", "c16_sanity_twin"], ["sharded_invalid_names", "plain_set_fault"],
      outside=["names longer than 3 bytes and non-ASCII bytes (no byte >= 128 is a separator; the first-byte rule treats them as letters)", "embedded NUL (rejected by std when the path is turned into a C string)"], assumptions=COMMON_ASSUME)
@@ -258,11 +258,11 @@ prop("C18", ["stack_gou_glue", "proto_glue", "stack_ops_glue", "stack_finalize_g
      outside=["more than one failing call per operation", "failures inside the caller's populate function other than its own error return", "re-issuing the operation after the fault is covered by the fault-free harnesses starting from arbitrary valid states (C02)"],
      assumptions=COMMON_ASSUME)
 prop("C19", ["readonly_glue", "stack_gou_glue", "proto_glue", "stack_ops_glue", "stack_finalize_glue", "plain_get_seq", "stack_get_w1r0_nock", "raw_insert_or_update_basic", "stack_ops_sanity_twin"],
-     ["stack_get_w1r1_nock", "stackc_set_temp_w1r1", "stackc_put_temp_w1r1", "stack_get_w1r2_bytes", "stack_set_temp_w1r1", "stack_put_temp_w2r0", "plain_set_seq", "sharded_get_01"],
+     ["stack_get_w1r1_nock", "stackc_set_temp_w1r1", "stackc_put_temp_w1r1", "stack_set_temp_w1r1", "stack_put_temp_w2r0", "plain_set_seq", "sharded_get_01"],
      outside=["the no-writer miss path returns the throw-away temp file itself (read-write by construction): only its offset is checked"],
      assumptions=COMMON_ASSUME + ["the process umask only influences the initial mode of caller-supplied files, which is symbolic"])
 prop("C20", ["proto_glue", "plain_get_seq", "plain_touch_seq", "stack_get_w1r0_nock", "plain_ops_sanity_twin"],
-     ["stack_get_w1r1_nock", "plain_set_seq", "plain_put_seq", "sharded_get_01", "sharded_touch_01", "sharded_write_notrigger", "stack_get_w1r2_bytes"],
+     ["stack_get_w1r1_nock", "plain_set_seq", "plain_put_seq", "sharded_get_01", "sharded_touch_01", "sharded_write_notrigger"],
      outside=["the lifetime of directory streams (released inside std when the last DirEntry is dropped; not observable through the stubs)", "independence from the number of entries holds because no directory listing is reachable outside maintenance (asserted)"],
      assumptions=COMMON_ASSUME)
 
